@@ -294,6 +294,9 @@ impl AnnotatedLexer<'_> {
         if let Ok(ref item) = item {
             if self.raw_token == RawToken::default() {
                 self.raw_token = item.clone().into();
+            } else if *item == TokenType::Newline {
+                // A line break that a statement reads past (data directives
+                // do) is not part of the statement's text
             } else {
                 self.raw_token = RawToken::new(
                     format!("{} {}", self.raw_token.raw_text(), item.raw_text()),
